@@ -77,6 +77,9 @@ func TestCases(t *testing.T) {
 		if only != "" && !strings.HasPrefix(e.Group.Ep, only) {
 			continue
 		}
+		if skip := os.Getenv("VERIF_SKIP"); skip != "" && strings.HasPrefix(e.Group.Ep, skip) {
+			continue
+		}
 		if registry[e.Group.Ep] == nil {
 			missing = append(missing, e.Group.Ep)
 			continue
